@@ -926,6 +926,11 @@ def run(c):
             except Exception as e2:
                 c.fail("integrate_states: optimize() raised %s" % type(e2).__name__, {"spec": spec}, str(e2)[:300])
     run_batch(c, batch)
+    c.notes.append("state_at (whole, path by path), the first half of __states_times_in, states_in and the de-scaling "
+                   "statements of extract_controls / extract_states are re-translated from the source on every run "
+                   "(Gen/StateAt.lean, 4 generated obligations) in addition to der_at / the knot assembly / the quadrature "
+                   "(Gen/Accessors.lean, 3); the symbol cache of state_at is read as memoisation under a key that must name "
+                   "all five arguments")
     c.notes.append("every accessor call is judged twice: by the plain-Python re-statement of the property on "
                    "extract_results() (failure = VIOLATION) and against the Lean model (disagreement = model no longer "
                    "describes the code); the unbounded claim is carried by the theorems in Props/C15.lean")
